@@ -209,6 +209,67 @@ func basmRunCmd(path string) int {
 	return 0
 }
 
+// genBasmPrograms runs TLC -simulate on BasmSem and returns the programs of the behaviours with
+// their expected output streams; ok is false (and the run marked inconclusive) when TLC fails.
+func genBasmPrograms(r *evid.Run, scratch string, rsize, len0, budget, ncp int, entryAny, dirAny, macroHeavy bool, n int, seed int64) (progs []basmProg, transitions int64, ok bool) {
+	nout := 2
+	dir := filepath.Join(scratch, fmt.Sprintf("g_%d_%d_%d_%v_%v_%v", rsize, len0, ncp, entryAny, dirAny, macroHeavy))
+	os.MkdirAll(dir, 0o755)
+	up := func(b bool) string { return strings.ToUpper(fmt.Sprint(b)) }
+	cfg := fmt.Sprintf("SPECIFICATION Spec\nCONSTANTS\n RSize = %d\n Len0 = %d\n Budget = %d\n NOut = %d\n NCP = %d\n EntryAnywhere = %s\n DirectiveAnywhere = %s\n MacroHeavy = %s\nINVARIANT TypeOK\nCHECK_DEADLOCK FALSE\n",
+		rsize, len0, budget, nout, ncp, up(entryAny), up(dirAny), up(macroHeavy))
+	res, err := tlc.Run(tlc.Options{SpecDir: specDir, Module: "BasmSem", CfgText: cfg, Workers: 1, Timeout: 20 * time.Minute,
+		Args: []string{"-simulate", fmt.Sprintf("file=%s/b,num=%d", dir, n), "-depth", strconv.Itoa(ncp*(len0+1) + budget + 2), "-seed", strconv.FormatInt(seed, 10)}})
+	if err != nil {
+		r.Inconclusive("tlc simulate: %v", err)
+		return nil, 0, false
+	}
+	if res.Violation != "" {
+		r.Inconclusive("TLC rejects BasmSem: %s %s", res.Violation, res.ViolationName)
+		return nil, 0, false
+	}
+	files, _ := filepath.Glob(filepath.Join(dir, "b_*"))
+	sort.Strings(files)
+	for _, f := range files {
+		beh, err := tlc.ParseSimFile(f)
+		if err != nil || len(beh) == 0 {
+			r.Inconclusive("parse %s: %v", f, err)
+			return nil, 0, false
+		}
+		last := beh[len(beh)-1].Vars
+		p := basmProg{RSize: rsize, Entry: int(tlaval.Int(last["entry"])), Epos: int(tlaval.Int(last["epos"])), Lbd: tlaval.Bool(last["lbd"]),
+			Gio: tlaval.Str(last["gio"]), AttFirst: tlaval.Bool(last["attfirst"]), Steps: int(tlaval.Int(last["steps"]))}
+		complete := true
+		for _, pv := range tlaval.AsSeq(last["progs"]) {
+			var lines []basmLine
+			for _, lv := range tlaval.AsSeq(pv) {
+				rec := tlaval.AsRec(lv)
+				lines = append(lines, basmLine{Op: tlaval.Str(rec["op"]), A: int(tlaval.Int(rec["a"])), B: int(tlaval.Int(rec["b"])), T: int(tlaval.Int(rec["t"])), Nt: tlaval.Str(rec["nt"])})
+			}
+			if len(lines) != len0 {
+				complete = false
+			}
+			p.Progs = append(p.Progs, lines)
+		}
+		if !complete || len(p.Progs) != ncp {
+			continue // behaviour cut before the programs were complete
+		}
+		pairs := func(v tlaval.Value) (out [][2]uint64) {
+			for _, o := range tlaval.AsSeq(v) {
+				t := tlaval.AsSeq(o)
+				out = append(out, [2]uint64{uint64(tlaval.Int(t[0])), uint64(tlaval.Int(t[1]))})
+			}
+			return
+		}
+		p.Outs = pairs(tlaval.AsRec(last["ref"])["outs"])
+		p.AscOuts = pairs(tlaval.AsRec(last["asc"])["outs"])
+		progs = append(progs, p)
+		transitions += int64(len(beh))
+	}
+	os.RemoveAll(dir)
+	return progs, transitions, true
+}
+
 func runC05(r *evid.Run) {
 	scratch, err := os.MkdirTemp("", "bmverif-c05-")
 	if err != nil {
@@ -219,62 +280,10 @@ func runC05(r *evid.Run) {
 	var progs []basmProg
 	var transitions int64
 	gen := func(rsize, len0, budget, ncp int, entryAny, dirAny, macroHeavy bool, n int, seed int64) bool {
-		nout := 2
-		dir := filepath.Join(scratch, fmt.Sprintf("g_%d_%d_%d_%v_%v_%v", rsize, len0, ncp, entryAny, dirAny, macroHeavy))
-		os.MkdirAll(dir, 0o755)
-		up := func(b bool) string { return strings.ToUpper(fmt.Sprint(b)) }
-		cfg := fmt.Sprintf("SPECIFICATION Spec\nCONSTANTS\n RSize = %d\n Len0 = %d\n Budget = %d\n NOut = %d\n NCP = %d\n EntryAnywhere = %s\n DirectiveAnywhere = %s\n MacroHeavy = %s\nINVARIANT TypeOK\nCHECK_DEADLOCK FALSE\n",
-			rsize, len0, budget, nout, ncp, up(entryAny), up(dirAny), up(macroHeavy))
-		res, err := tlc.Run(tlc.Options{SpecDir: specDir, Module: "BasmSem", CfgText: cfg, Workers: 1, Timeout: 20 * time.Minute,
-			Args: []string{"-simulate", fmt.Sprintf("file=%s/b,num=%d", dir, n), "-depth", strconv.Itoa(ncp*(len0+1) + budget + 2), "-seed", strconv.FormatInt(seed, 10)}})
-		if err != nil {
-			r.Inconclusive("tlc simulate: %v", err)
-			return false
-		}
-		if res.Violation != "" {
-			r.Inconclusive("TLC rejects BasmSem: %s %s", res.Violation, res.ViolationName)
-			return false
-		}
-		files, _ := filepath.Glob(filepath.Join(dir, "b_*"))
-		sort.Strings(files)
-		for _, f := range files {
-			beh, err := tlc.ParseSimFile(f)
-			if err != nil || len(beh) == 0 {
-				r.Inconclusive("parse %s: %v", f, err)
-				return false
-			}
-			last := beh[len(beh)-1].Vars
-			p := basmProg{RSize: rsize, Entry: int(tlaval.Int(last["entry"])), Epos: int(tlaval.Int(last["epos"])), Lbd: tlaval.Bool(last["lbd"]),
-				Gio: tlaval.Str(last["gio"]), AttFirst: tlaval.Bool(last["attfirst"]), Steps: int(tlaval.Int(last["steps"]))}
-			complete := true
-			for _, pv := range tlaval.AsSeq(last["progs"]) {
-				var lines []basmLine
-				for _, lv := range tlaval.AsSeq(pv) {
-					rec := tlaval.AsRec(lv)
-					lines = append(lines, basmLine{Op: tlaval.Str(rec["op"]), A: int(tlaval.Int(rec["a"])), B: int(tlaval.Int(rec["b"])), T: int(tlaval.Int(rec["t"])), Nt: tlaval.Str(rec["nt"])})
-				}
-				if len(lines) != len0 {
-					complete = false
-				}
-				p.Progs = append(p.Progs, lines)
-			}
-			if !complete || len(p.Progs) != ncp {
-				continue // behaviour cut before the programs were complete
-			}
-			pairs := func(v tlaval.Value) (out [][2]uint64) {
-				for _, o := range tlaval.AsSeq(v) {
-					t := tlaval.AsSeq(o)
-					out = append(out, [2]uint64{uint64(tlaval.Int(t[0])), uint64(tlaval.Int(t[1]))})
-				}
-				return
-			}
-			p.Outs = pairs(tlaval.AsRec(last["ref"])["outs"])
-			p.AscOuts = pairs(tlaval.AsRec(last["asc"])["outs"])
-			progs = append(progs, p)
-			transitions += int64(len(beh))
-		}
-		os.RemoveAll(dir)
-		return true
+		ps, tr, ok := genBasmPrograms(r, scratch, rsize, len0, budget, ncp, entryAny, dirAny, macroHeavy, n, seed)
+		progs = append(progs, ps...)
+		transitions += tr
+		return ok
 	}
 	if !gen(8, 10, 40, 1, false, false, false, r.Pick(120, 1500), r.Seed*7+1) || !gen(8, 8, 40, 1, false, true, false, r.Pick(60, 600), r.Seed*7+2) ||
 		!gen(8, 8, 40, 1, true, true, false, r.Pick(60, 600), r.Seed*7+3) || !gen(8, 8, 40, 1, false, false, true, r.Pick(40, 300), r.Seed*7+4) ||
